@@ -19,6 +19,7 @@ package semver
 
 import (
 	"fmt"
+	"strconv"
 )
 
 // A value represents a numeric element of a Version. It needs to be a
@@ -43,7 +44,7 @@ func (v value) String() string {
 	if v == wildcard {
 		return "*"
 	}
-	return fmt.Sprint(int(v))
+	return strconv.FormatInt(int64(v), 10)
 }
 
 // inc returns the value increased by 1, capping at infinity.
